@@ -1,0 +1,26 @@
+//go:build verif
+
+// Contracts for the deductive verifier in /verif (govc). Comment-only: this file declares nothing and is
+// compiled only under the build tag `verif`. Syntax: see /verif/DESIGN.md §2.5.
+
+package connect
+
+//@ file authz.go
+
+//@ func IntentionMatch
+//@ props C13
+//@ results m
+//@ requires ixn != nil
+//@ ensures[destination] matchType == structs.IntentionMatchDestination ==> (m <==> (acl.PartitionOrDefault(ixn.DestinationPartition) == acl.PartitionOrDefault(targetAP) && (ixn.DestinationNS == "*" || ixn.DestinationNS == targetNS) && (ixn.DestinationName == "*" || ixn.DestinationName == target)))
+//@ ensures[source] matchType == structs.IntentionMatchSource ==> (m <==> (ixn.SourcePeer == targetPeer && acl.PartitionOrDefault(ixn.SourcePartition) == acl.PartitionOrDefault(targetAP) && (ixn.SourceNS == "*" || ixn.SourceNS == targetNS) && (ixn.SourceName == "*" || ixn.SourceName == target)))
+//@ ensures[unknown-type-rejected] matchType != structs.IntentionMatchDestination && matchType != structs.IntentionMatchSource ==> !m
+//@ modifies nothing
+
+//@ func AuthorizeIntentionTarget
+//@ props C13
+//@ results auth, match
+//@ requires ixn != nil
+//@ ensures[match] match == IntentionMatch(target, targetNS, targetAP, targetPeer, ixn, matchType)
+//@ ensures[auth] match ==> (auth <==> ixn.Action == structs.IntentionActionAllow)
+//@ ensures[no-match-no-auth] !match ==> !auth
+//@ modifies nothing
